@@ -10,16 +10,45 @@ import (
 
 // The four converters have a debug dump (package variable DebugRWPhelpers) that prints what they converted. The dump
 // must not change what they return. Every third converter record (chosen by a hash of its text, so a replay chooses
-// the same) is executed a second time with the dump switched on and the process's stdout pointed at /dev/null; if the
-// result differs, the debug-on result is what the record reports (the driver then sees model ≠ implementation and
-// evaluates the property on it).
+// the same) AND every record whose input or output carries a line / string longer than debugLongLine bytes (a dump that
+// shortens or wraps what it prints acts only on long lines) is executed a second time with the dump switched on and the
+// process's stdout pointed at /dev/null; if the result differs, the debug-on result is what the record reports (the
+// driver then sees model ≠ implementation and evaluates the property on it).
+const debugLongLine = 200
+
+// a byte string of more than n bytes in the record text: a run of more than 2n hex digits
+func hasLongHex(s string, n int) bool {
+	run := 0
+	for i := 0; i < len(s); i++ {
+		c := s[i]
+		if (c >= '0' && c <= '9') || (c >= 'a' && c <= 'f') {
+			run++
+			if run > 2*n {
+				return true
+			}
+		} else {
+			run = 0
+		}
+	}
+	return false
+}
+
 func withDebugVariant(cmd string, a []string, f func(string, []string) string) string {
 	normal := f(cmd, a)
+	if os.Getenv("VERIF_NO_DEBUG_VARIANT") != "" {
+		return normal
+	}
 	h := fnv.New32a()
 	h.Write([]byte(cmd))
 	h.Write([]byte(strings.Join(a, " ")))
-	if h.Sum32()%3 != 0 || os.Getenv("VERIF_NO_DEBUG_VARIANT") != "" {
-		return normal
+	if h.Sum32()%3 != 0 {
+		long := hasLongHex(normal, debugLongLine)
+		for i := 0; !long && i < len(a); i++ {
+			long = hasLongHex(a[i], debugLongLine)
+		}
+		if !long {
+			return normal
+		}
 	}
 	dbg := ""
 	quietly(func() {
